@@ -41,9 +41,9 @@ def lexer_mod():
     return lexer
 
 
-def pt_lex(chunks):
+def pt_lex(chunks, version=None):
     lexer = lexer_mod()
-    lx = lexer.Lexer(version=core.lua_version(chunks))
+    lx = lexer.Lexer(version=core.lua_version(chunks) if version is None else version)
     lx.process_lines(chunks)
     return lx.tokens
 
@@ -171,6 +171,20 @@ def _compare_tokens(src, ref, res, fam, case, lexfn):
     res.outcome(tuple(r.kind for r in ref[:6]))
     if lexfn is not None:
         return
+    # the lines as a one-shot iterable (a generator, an open file) instead of a list
+    if len(src) > 2 and (len(src) + src[0]) % 5 == 0:
+        try:
+            lua = __import__('pico8.lua.lua', fromlist=['lua'])
+            parts_ = src.split(b'\n')
+            chunks_ = [p_ + b'\n' for p_ in parts_[:-1]] + ([parts_[-1]] if parts_[-1] else [])
+            a_ = [(type(t).__name__, t._data) for t in pt_lex(list(chunks_))]
+            b_ = [(type(t).__name__, t._data) for t in pt_lex((ln for ln in chunks_), version=core.lua_version(chunks_))]
+            if a_ != b_:
+                res.violation('C07|generator-feed-differs', '%r: tokens differ when the lines arrive as a generator instead of a list' % src, case)
+                return
+        except Exception as e:
+            res.violation('C07|generator-feed-raise|%s' % type(e).__name__, '%r: feeding the lines as a generator raised %r' % (src, e), case)
+            return
     # chunk invariance: split after every LF
     if b'\n' in src[:-1]:
         parts = src.split(b'\n')
